@@ -188,13 +188,29 @@ func c06Draw(c *lab.Ctx) {
 }
 
 func c06WRR(c *lab.Ctx) {
-	c.Rule("weighted round-robin balancer over 2..8 healthy hosts with weights 1..128 (equal, co-prime, one dominant, min/max, random); L = 20*sum(w) picks (capped); for every pair (i,j) the bound must hold for every window = max-min of f(t)=N_i(t)/w_i-N_j(t)/w_j over all prefixes; distinct = weight vectors")
+	c.Rule("weighted round-robin balancer over 2..8 (one third: 9..64) healthy hosts with weights 1..128 (equal, co-prime, one dominant, min/max, nearly equal with a light and a heavy host at first/middle/last position, random); L = 20*sum(w) picks (capped); for every pair (i,j) the bound must hold for every window = max-min of f(t)=N_i(t)/w_i-N_j(t)/w_j over all prefixes; distinct = weight vectors")
 	rng := c.Rand("wrr")
 	nCfg := c.Pick(300, 3000)
 	for ci := 0; ci < nCfg; ci++ {
 		n := 2 + rng.Intn(7)
+		if rng.Intn(3) == 0 {
+			n = 9 + rng.Intn(56) // large host sets (the balancer's scheduler is sized and filled per host-set size)
+		}
 		ws := make([]uint32, n)
-		switch rng.Intn(6) {
+		shape := rng.Intn(8)
+		switch shape {
+		case 6, 7:
+			// nearly equal weights with one light and one heavy host at chosen positions (first / middle / last)
+			w := uint32(1 + rng.Intn(8))
+			for i := range ws {
+				ws[i] = w
+			}
+			pos := []int{0, n/2 - 1, n / 2, n - 1, rng.Intn(n)}
+			if n/2-1 < 0 {
+				pos[1] = 0
+			}
+			ws[pos[rng.Intn(len(pos))]] = uint32(1 + rng.Intn(2))
+			ws[pos[rng.Intn(len(pos))]] = uint32(64 + rng.Intn(65))
 		case 0:
 			w := uint32(1 + rng.Intn(128))
 			for i := range ws {
@@ -284,6 +300,7 @@ func c06WRR(c *lab.Ctx) {
 		sw := append([]uint32(nil), ws...)
 		sort.Slice(sw, func(a, b int) bool { return sw[a] < sw[b] })
 		c.Distinct(fmt.Sprint(sw))
+		c.Distinct(fmt.Sprintf("hosts=%d", n))
 		if ci%101 == 0 {
 			c.Sample(map[string]interface{}{"weights": ws, "picks": L, "counts": fmt.Sprint(cnt)})
 		}
